@@ -141,6 +141,9 @@ def bool_fact(body, e, val, depth=0):
             if len(ds) == 1:
                 r = ("call", ds[0][0]) if ds[0][1] == "term" else hb.origin_rvalue(ds[0][2])
                 r = strip_refs(r) if r[0] == "ref" else r
+                if r[0] == "param" and 1 <= r[1] <= len(ct["args"]):
+                    # `fn unlikely(b: bool) -> bool { .. b }`: the fact is the argument's
+                    return bool_fact(body, body.origin_operand(ct["args"][r[1] - 1]), val, depth + 1)
                 f = bool_fact(hb, r, val, depth + 1)
                 args = tuple(body.origin_operand(a) for a in ct["args"])
                 W = lambda x: ("inl", k, x, args, body.path) if x is not None else None
@@ -152,8 +155,8 @@ def bool_fact(body, e, val, depth=0):
                     if f[0] == "ne":
                         return ("ne", W(f[1]), f[2])
                     if f[0] == "pred":
-                        return ("pred", f[1], W(f[2]), f[3], e[1])
-        return ("pred", callee_name(ct), a0, val, e[1])
+                        return ("pred", f[1], W(f[2]), f[3], e[1], tuple(W(x) for x in (f[5] if len(f) > 5 else ())))
+        return ("pred", callee_name(ct), a0, val, e[1], tuple(body.origin_operand(a) for a in ct["args"]))
     if e[0] == "bin" and e[1] in ("Eq", "Ne", "Lt", "Le", "Gt", "Ge"):
         op, a, b = e[1], strip_refs(e[2]), strip_refs(e[3])
         ca, cb = eval_int(a), eval_int(b)
@@ -181,14 +184,88 @@ def bool_fact(body, e, val, depth=0):
     return None
 
 
-def guards_at(body, bb):
+def guards_at(body, bb, _depth=0):
     """all interpreted facts that hold on every path reaching block bb"""
     out = []
     for sb, lab in dominating_edges(body, bb):
         f = edge_fact(body, sb, lab)
         if f:
             out.append(f)
+    # what a private assertion helper established: `self.assert_char_boundary(idx)` returns only when
+    # its check passed, so after a call that dominates bb the facts common to all of the helper's
+    # returns hold too (carried back into this frame)
+    if _depth < 2:
+        F = body.facts
+        # `let size = self.realloc_size(cap)?;` - on the Ok edge of a private fallible helper the facts
+        # hold under which that helper builds its Ok result
+        for f0 in list(out):
+            if f0[0] == "cls" and f0[2] in ("Ok", "Some") and isinstance(f0[1], int):
+                ct = body.term(f0[1])
+                k = ct.get("local_key")
+                if k and k in F.bodies and k not in anchors(F) and F.bodies[k].j["kind"] != "closure":
+                    hb = F.bodies[k]
+                    args = tuple(body.origin_operand(a) for a in ct["args"])
+                    W = lambda x: ("inl", k, x, args, body.path) if x is not None else None
+                    for f in return_facts(hb, _depth + 1, cls=f0[2]):
+                        if f[0] == "cmp":
+                            out.append(("cmp", W(f[1]), f[2], f[3]))
+                        elif f[0] == "cmp2":
+                            out.append(("cmp2", f[1], W(f[2]), W(f[3])))
+                        elif f[0] == "ne":
+                            out.append(("ne", W(f[1]), f[2]))
+                        elif f[0] == "pred":
+                            out.append(("pred", f[1], W(f[2]), f[3], f0[1], tuple(W(x) for x in (f[5] if len(f) > 5 else ()))))
+        for cb, ct in body.calls():
+            k = ct.get("local_key")
+            if not k or k not in F.bodies or k in anchors(F) or F.bodies[k].j["kind"] == "closure" or ct.get("target") is None:
+                continue
+            if cb == bb or not body.dominates(ct["target"], bb) or cb in body.debug_only_blocks():
+                continue
+            for f in return_facts(F.bodies[k], _depth + 1):
+                args = tuple(body.origin_operand(a) for a in ct["args"])
+                W = lambda x: ("inl", k, x, args, body.path) if x is not None else None
+                if f[0] == "cmp":
+                    out.append(("cmp", W(f[1]), f[2], f[3]))
+                elif f[0] == "cmp2":
+                    out.append(("cmp2", f[1], W(f[2]), W(f[3])))
+                elif f[0] == "ne":
+                    out.append(("ne", W(f[1]), f[2]))
+                elif f[0] == "pred":
+                    out.append(("pred", f[1], W(f[2]), f[3], cb, tuple(W(x) for x in (f[5] if len(f) > 5 else ()))))
     return out
+
+
+def return_facts(hb, _depth=1, cls=None):
+    """facts that hold at every normal return of a body (non-trivial only when some path diverges);
+    with cls='Ok'/'Some': at every place where the body builds a result of that class"""
+    if cls is None:
+        rets = [b for b in range(hb.n) if hb.term(b)["k"] == "return" and b in hb.reachable(0, unwind=False)]
+    else:
+        rets = [b for b, blk in enumerate(hb.blocks) for s_ in blk["stmts"] if s_["k"] == "assign" and s_["lhs"]["l"] == 0 and not s_["lhs"]["p"] and s_["rv"]["k"] == "aggregate" and s_["rv"].get("variant_name") == cls]
+        # a result passed through from a callee (`Ok`-class of a tail call) is not analysed
+        if any(si == "term" for (_, si, _) in hb.defs.get(0, [])):
+            return []
+    if not rets:
+        return []
+    sets = []
+    for r in rets:
+        sets.append([f for f in guards_at(hb, r, _depth) if f[0] in ("cmp", "cmp2", "ne", "pred")])
+    common = []
+    for f in sets[0]:
+        key = _fact_key(hb, f)
+        if all(any(_fact_key(hb, g) == key for g in s2) for s2 in sets[1:]):
+            common.append(f)
+    return common
+
+
+def _fact_key(b, f):
+    if f[0] == "cmp":
+        return ("cmp", describe(b, f[1]), f[2], f[3])
+    if f[0] == "cmp2":
+        return ("cmp2", f[1], describe(b, f[2]), describe(b, f[3]))
+    if f[0] == "ne":
+        return ("ne", describe(b, f[1]), f[2])
+    return ("pred", f[1], describe(b, f[2]) if f[2] is not None else None, f[3])
 
 
 _ANCHORS = None
@@ -204,7 +281,30 @@ def anchors(F):
         import os, json
         p = os.path.join(os.path.dirname(os.path.dirname(os.path.abspath(__file__))), "anchors.json")
         _ANCHORS = set(json.load(open(p))) if os.path.exists(p) else set()
+    if _INLINE_ALSO:
+        return _ANCHORS - _INLINE_ALSO
     return _ANCHORS
+
+
+_INLINE_ALSO = frozenset()
+
+
+class inlining:
+    """`with inlining(paths):` - for the rules inside, the named reference functions are looked through
+    like private helpers (sibling impls that may forward to one another: PartialEq<&str> via
+    PartialEq<str>, visit_borrowed_str via visit_str, write_str via AddAssign)"""
+
+    def __init__(self, paths):
+        self.paths = frozenset(paths)
+
+    def __enter__(self):
+        global _INLINE_ALSO
+        self.old = _INLINE_ALSO
+        _INLINE_ALSO = self.old | self.paths
+
+    def __exit__(self, *a):
+        global _INLINE_ALSO
+        _INLINE_ALSO = self.old
 
 
 NAME_NORM = {
@@ -316,6 +416,9 @@ def _hdr_root(body, e, depth=0):
     return e
 
 
+STORAGE_VIEW_FNS = ("repr::Repr::as_heap_buffer", "repr::Repr::as_heap_buffer_mut", "repr::Repr::as_static_buffer", "repr::Repr::as_static_buffer_mut", "repr::Repr::as_inline_buffer_mut")
+
+
 class Clo(str):
     """description of a closure value that also remembers which closure body it is and how its
     captures are described (in the describing frame's terms)"""
@@ -386,6 +489,9 @@ def describe(body, e, depth=0, subst=None):
         if "from_residual" in nm and args:
             a = D(args[0])
             return a if a.startswith("err(") else "err(%s)" % a
+        # a typed view of the handle's storage (as_heap_buffer(&self) -> &HeapBuffer ...) is the handle
+        if nm in STORAGE_VIEW_FNS and len(args) == 1:
+            return D(args[0])
         # a pointer / reference to the header of a heap buffer is named by the buffer it belongs to,
         # whichever accessor or pointer arithmetic produced it
         if not t["dest"]["p"]:
